@@ -1422,7 +1422,10 @@ def reject_epochs(reject_threshold, mode, status_cb, valid_target):
 
         # Check for valid epochs and send them if there are any
         th = __th_cb__()
-        mask = accept(np.asarray(data), th)[:, 0]
+        # The criterion is evaluated in double precision: integer epochs (raw
+        # ADC counts) would wrap around in abs / ptp, and a float32 epoch would
+        # round the threshold to float32 in the comparison.
+        mask = accept(np.asarray(data, dtype=np.double), th)[:, 0]
         valid_data = data[mask]
         if isinstance(valid_data, PipelineData):
             valid_data.add_metadata('reject_threshold', th)
